@@ -76,6 +76,8 @@ class C05(Spec):
     tags = "faketime"
     driver = "drv_cache"
     monitor = True
+    # faketime + many Ps can live-lock inside the Go runtime's GC; the harness itself runs scenarios with 1 P (4 in marked phases)
+    harness_env = {"GOMAXPROCS": "2"}
     shrink_sep = " ; "
     rule = ("one case = one timed scenario on a fresh cache under the Go fake clock; exhaustive boundary table "
             "(result kind value/error/Set x call offset 0,1,E-1,E,E+1,2E-1,2E,2E+1,5E x Load/Get2 x refresh duration) plus random "
